@@ -1,19 +1,5 @@
 // ---- transaction wire format + sighash midstate specs (written from the Bitcoin wire format and
 // ---- the replay-protected sighash specification, not from the code) ----
-// canonical compact-size integer (Bitcoin wire format)
-pub open spec fn varint(n: u64) -> Seq<u8> {
-    if n <= 252 { seq![n as u8] } else if n <= 0xffff { seq![0xfdu8] + le16(n as u16) }
-    else if n <= 0xffffffff { seq![0xfeu8] + le32(n as u32) } else { seq![0xffu8] + le64(n) }
-}
-// the accepting reader (non-canonical forms included): value and bytes consumed
-pub open spec fn parse_varint(s: Seq<u8>) -> Option<(u64, int)> {
-    if s.len() < 1 { None }
-    else if s[0] == 0xff { if s.len() < 9 { None } else { Some((un_le64(s.subrange(1, 9)), 9int)) } }
-    else if s[0] == 0xfe { if s.len() < 5 { None } else { Some((un_le32(s.subrange(1, 5)) as u64, 5int)) } }
-    else if s[0] == 0xfd { if s.len() < 3 { None } else { Some((un_le16(s.subrange(1, 3)) as u64, 3int)) } }
-    else { Some((s[0] as u64, 1int)) }
-}
-
 pub open spec fn outpoint(i: TxIn) -> Seq<u8> { i.prev_tx_id@.reverse() + le32(i.vout) }
 pub open spec fn ser_in(i: TxIn) -> Seq<u8> {
     outpoint(i) + varint(ser_script(i.unlocking_script).len() as u64) + ser_script(i.unlocking_script) + le32(i.sequence)
